@@ -144,6 +144,8 @@ def alloc_sites():
                  2 ErrConv (inside `impl From<..Error> for ..`), 3 StringHelper (escape_ascii / Debug::fmt / escape_ascii method),
                  4 TestOnly (#[cfg(test)] item), 5 TypePosition (a type, not a construct)"""
     sites = []
+    defs = {}    # fn name -> list of is_pub, over all anchored files (tests excluded)
+    calls = {}   # callee name -> list of (caller fn, caller is a String helper by the naming rule)
     for fi, rel in enumerate(C18_FILES):
         path = os.path.join(REPO, rel)
         if not os.path.exists(path):
@@ -184,6 +186,21 @@ def alloc_sites():
                 impl_ctx = " ".join(hdr)
             if kind == "ident" and text == "fn" and k + 1 < len(toks):
                 fn_name = toks[k + 1][1]
+                if not any(f["test"] for f in stack) and not pending_cfg_test:
+                    is_pub = False
+                    for b in range(k - 1, max(-1, k - 12), -1):
+                        if toks[b][1] in (";", "}", "{", "]"):
+                            break
+                        if toks[b][1] == "pub":
+                            is_pub = True
+                    in_trait_impl = any(f["kind"] == "impl" and f["impl"] and " for " in f["impl"] for f in stack)
+                    defs.setdefault(fn_name, []).append(is_pub or in_trait_impl)
+            if kind == "ident" and k + 1 < len(toks) and toks[k + 1][1] == "(" and k > 0 and toks[k - 1][1] != "fn" and not any(f["test"] for f in stack):
+                c_fn = [f for f in stack if f["kind"] == "fn"]
+                if c_fn:
+                    c_impl = next((f["impl"] for f in reversed(stack) if f["kind"] == "impl"), None)
+                    helper = c_fn[-1]["fn"] in ("escape_ascii", "fmt") or bool(c_impl and "Debug" in c_impl)
+                    calls.setdefault(text, []).append((c_fn[-1]["fn"], helper))
             if text in "({[":
                 prev = toks[k - 1][1] if k > 0 else ""
                 prev2 = toks[k - 2][1] if k > 1 else ""
@@ -264,6 +281,21 @@ def alloc_sites():
                 if cur_fn:
                     sites.append((fi, line, toks[k - 3][1] + "::new", ctx, cur_fn))
             k += 1
+    # private helpers of the String-producing functions: a function defined exactly once, not `pub` and not a trait
+    # method, that is called at least once and only from `escape_ascii` / `Debug::fmt` (or from other such helpers)
+    # shares their exemption; any other caller removes it
+    exempt = set()
+    changed = True
+    while changed:
+        changed = False
+        for name, pubs in defs.items():
+            if name in exempt or len(pubs) != 1 or pubs[0]:
+                continue
+            cs = calls.get(name, [])
+            if cs and all(h or c in exempt for c, h in cs):
+                exempt.add(name)
+                changed = True
+    sites = [(fi, line, text, (3 if ctx == 0 and fn in exempt else ctx), fn) for fi, line, text, ctx, fn in sites]
     return sites
 
 
